@@ -176,6 +176,39 @@ fn v1_responses() -> Result<Vec<(String, Vec<u8>)>, String> {
     Ok(out)
 }
 
+struct StderrParked(Option<i32>);
+
+impl StderrParked {
+    fn new() -> Self {
+        if std::env::var_os("VH_C07_KEEP_STDERR").is_some() {
+            return StderrParked(None);
+        }
+        // SAFETY: plain descriptor juggling on fd 2; no Rust object owns these descriptors
+        unsafe {
+            let saved = libc::dup(2);
+            let null = libc::open(c"/dev/null".as_ptr(), libc::O_WRONLY);
+            if saved < 0 || null < 0 {
+                return StderrParked(None);
+            }
+            libc::dup2(null, 2);
+            libc::close(null);
+            StderrParked(Some(saved))
+        }
+    }
+}
+
+impl Drop for StderrParked {
+    fn drop(&mut self) {
+        if let Some(saved) = self.0.take() {
+            // SAFETY: restores the descriptor saved in `new`
+            unsafe {
+                libc::dup2(saved, 2);
+                libc::close(saved);
+            }
+        }
+    }
+}
+
 fn main() {
     let mut ck = Check::from_args("C07", "fault_enumeration");
     let tier = ck.tier;
@@ -598,10 +631,15 @@ fn main() {
     }
 
     // --------------------------------------------------------------- caches
+    // The hooks and the multi-layer cache eprintln! one line per rejected content (tens of
+    // thousands here); stderr is parked on /dev/null for these sections. Panics are captured
+    // by the engine and reported through stdout as failures.
+    let quiet = StderrParked::new();
     ck.run(Section::pbt("hooks-direct", tier.pick(6000, 600_000), caches::hooks_strategy, caches::check_hooks).shards(16));
     ck.run(Section::pbt("cac-sequences", tier.pick(6000, 400_000), caches::cac_strategy, caches::check_cac).shards(16));
     ck.run(Section::pbt("ml-sequences", tier.pick(5000, 300_000), caches::ml_strategy, caches::check_ml).shards(16));
 
+    drop(quiet);
     let vac = VACUOUS.load(Ordering::Relaxed);
     if vac > 0 {
         ck.infra(format!("{vac} cases were vacuous (un-mutated artifact not accepted or scratch I/O failed)"));
